@@ -39,6 +39,14 @@ impl<'a> EM<'a> {
             "greg_str" => catch(|| a.to_gregorian_str(to)),
             "rfc3339" => catch(|| a.to_rfc3339()),
             "iso8601" => catch(|| format!("{}", Formatter::new(a, consts::ISO8601))),
+            // Serialize: the content of the JSON string, by to_string and by to_value (they must agree)
+            "serde" => catch(|| {
+                let s = serde_json::to_string(&a).unwrap();
+                let v = serde_json::to_value(a).unwrap();
+                let inner = serde_json::from_str::<String>(&s).unwrap();
+                assert_eq!(inner, v.as_str().unwrap(), "to_string and to_value differ");
+                inner
+            }),
             _ => catch(|| a.to_isoformat()),
         };
         self.rec.ev("fmt_epoch", format!("\"form\":\"{}\",\"to\":{},\"res\":{}", form, ts_idx(to), jtext(&r)), true);
@@ -307,7 +315,8 @@ pub fn c10(rec: &mut Rec, lm: &Landmarks, rng: &mut Rng, thorough: bool) {
                 }
             }
             3 => {
-                if let Some(s) = m.fmt_epoch("display", ts) {
+                // JSON: what Serialize writes, read back through every Deserialize entry point
+                if let Some(s) = m.fmt_epoch("serde", ts) {
                     for via in SERDE_VIAS {
                         m.parse_epoch(via, &s);
                     }
